@@ -1984,8 +1984,11 @@ XSLTEngineImpl::checkDefaultNamespace(
             const XalanDOMString&   theElementName,
             const XalanDOMString&   theElementNamespaceURI)
 {
+    const XalanDOMString::size_type     theColonIndex =
+        indexOf(theElementName, XalanUnicode::charColon);
+
     // Check for elements with no prefix...
-    if (indexOf(theElementName, XalanUnicode::charColon) == theElementName.length())
+    if (theColonIndex == theElementName.length())
     {
         // Get the current default namespace URI..
         const XalanDOMString* const     theResultNamespace =
@@ -1996,6 +1999,47 @@ XSLTEngineImpl::checkDefaultNamespace(
         if (theResultNamespace != 0 && theElementNamespaceURI != *theResultNamespace)
         {
             addResultAttribute(DOMServices::s_XMLNamespace, theElementNamespaceURI, false, 0);
+        }
+    }
+    else
+    {
+        checkPrefixBinding(theElementName, theColonIndex, theElementNamespaceURI);
+    }
+}
+
+
+
+void
+XSLTEngineImpl::checkPrefixBinding(
+            const XalanDOMString&       theName,
+            XalanDOMString::size_type   theColonIndex,
+            const XalanDOMString&       theNamespaceURI)
+{
+    // The prefix of a copied element or attribute must be bound to the
+    // namespace of the node.  A node of a result tree fragment that was
+    // built where the binding was in scope has no declaration of its
+    // own, and may be copied to a place where the prefix is bound to
+    // another namespace, or not at all.
+    assert(m_executionContext != 0);
+    assert(theColonIndex < theName.length());
+
+    const ECGetCachedString     theGuard(*m_executionContext);
+
+    XalanDOMString&     thePrefix = theGuard.get();
+
+    substring(theName, thePrefix, 0, theColonIndex);
+
+    if (thePrefix != DOMServices::s_XMLString &&
+        thePrefix != DOMServices::s_XMLNamespace)
+    {
+        const XalanDOMString* const     theResultNamespace =
+            getResultNamespaceForPrefix(thePrefix);
+
+        if (theResultNamespace == 0 || theNamespaceURI != *theResultNamespace)
+        {
+            thePrefix.insert(0, DOMServices::s_XMLNamespaceWithSeparator);
+
+            addResultAttribute(thePrefix, theNamespaceURI, false, 0);
         }
     }
 }
@@ -3083,8 +3127,18 @@ XSLTEngineImpl::copyAttributesToAttList(
             const XalanNode* const  attr = attributes->item(i);
             assert(attr != 0);
 
+            const XalanDOMString&   theName = attr->getNodeName();
+
+            const XalanDOMString::size_type     theColonIndex =
+                indexOf(theName, XalanUnicode::charColon);
+
+            if (theColonIndex < theName.length())
+            {
+                checkPrefixBinding(theName, theColonIndex, attr->getNamespaceURI());
+            }
+
             copyAttributeToTarget(
-                attr->getNodeName(),
+                theName,
                 attr->getNodeValue(),
                 attList);
         }
